@@ -139,6 +139,8 @@ struct StressObs {
     tickers_started: u64,
     tickers_exited: u64,
     potential_cycle: Option<Vec<String>>,
+    /// a thread asked for a read lock on an RwLock it already holds for reading
+    recursive_read: Option<String>,
 }
 
 fn short(class: &str) -> String {
@@ -152,14 +154,18 @@ fn short(class: &str) -> String {
 fn analyse(events: &[vh::Event], workers: &BTreeSet<u32>) -> StressObs {
     let mut obs = StressObs { events: events.len(), ..Default::default() };
     let mut held: BTreeMap<u32, Vec<(usize, String)>> = BTreeMap::new();
+    let mut read_held: BTreeMap<(u32, usize), u32> = BTreeMap::new();
     let mut owner: BTreeMap<usize, u32> = BTreeMap::new();
     let mut sig: u64 = 0;
     let mut thread_requests: BTreeMap<u32, BTreeSet<String>> = BTreeMap::new();
     let mut joins: Vec<(Vec<String>, u32)> = Vec::new();
     for e in events {
         match e {
-            vh::Event::Request { t, lock, class, .. } => {
+            vh::Event::Request { t, lock, class, mode } => {
                 let c = short(class);
+                if *mode == vh::Mode::Read && read_held.get(&(*t, *lock)).copied().unwrap_or(0) > 0 {
+                    obs.recursive_read = Some(c.clone());
+                }
                 if let Some(o) = owner.get(lock) {
                     if o != t {
                         obs.contended += 1;
@@ -171,11 +177,19 @@ fn analyse(events: &[vh::Event], workers: &BTreeSet<u32>) -> StressObs {
                 thread_requests.entry(*t).or_default().insert(c.clone());
                 sig = splitmix(sig ^ (*t as u64) << 32 ^ fnv1a(c.as_bytes()));
             }
-            vh::Event::Acquired { t, lock, class, .. } => {
+            vh::Event::Acquired { t, lock, class, mode } => {
+                if *mode == vh::Mode::Read {
+                    *read_held.entry((*t, *lock)).or_default() += 1;
+                }
                 held.entry(*t).or_default().push((*lock, short(class)));
                 owner.insert(*lock, *t);
             }
-            vh::Event::Released { t, lock, .. } => {
+            vh::Event::Released { t, lock, mode, .. } => {
+                if *mode == vh::Mode::Read {
+                    if let Some(n) = read_held.get_mut(&(*t, *lock)) {
+                        *n = n.saturating_sub(1);
+                    }
+                }
                 if let Some(v) = held.get_mut(t) {
                     if let Some(i) = v.iter().rposition(|(l, _)| l == lock) {
                         v.remove(i);
@@ -256,6 +270,13 @@ fn find_deadlock(s: &vh::Snapshot) -> Option<String> {
                 if s.held.iter().any(|(l, v)| l == lock && v.iter().any(|(th, m)| th == t && !(*m == vh::Mode::Read && *mode == vh::Mode::Read))) {
                     return Some(format!("thread {t} waits for lock {} which it holds itself", short(class)));
                 }
+                // std's RwLock prefers writers: a second read by a thread that already holds a read lock queues
+                // behind a writer that arrived in between, and that writer waits for the first read lock
+                if *mode == vh::Mode::Read && s.held.iter().any(|(l, v)| l == lock && v.iter().any(|(th, m)| th == t && *m == vh::Mode::Read)) {
+                    if let Some((w, _)) = s.waiting.iter().find(|(w, ww)| w != t && matches!(ww, vh::WaitFor::Lock { lock: l2, mode: vh::Mode::Write, .. } if l2 == lock)) {
+                        return Some(format!("thread {t} holds a read lock on {} and waits for a second one behind writer thread {w}, which waits for the first", short(class)));
+                    }
+                }
                 let holders: Vec<u32> = s.held.iter().filter(|(l, _)| l == lock).flat_map(|(_, v)| v.iter().map(|(th, _)| *th)).filter(|h| h != t).collect();
                 if !holders.is_empty() {
                     waits.insert(*t, (holders, format!("lock {}", short(class))));
@@ -332,7 +353,7 @@ fn run_scenario(sc: &Scenario, seed: u64, directed: bool) -> RunEnd {
         x ^= x >> 7;
         x ^= x << 17;
         ds.store(x, Ordering::Relaxed);
-        let nested_second_lock = matches!(p.kind, vh::DelayKind::BeforeRequest) && p.class.contains("Ticker");
+        let nested_second_lock = matches!(p.kind, vh::DelayKind::BeforeRequest) && (p.class.contains("Ticker") || (p.mode == vh::Mode::Read && p.class.contains("MultiState")));
         let r = x % 16;
         if directed && (nested_second_lock || matches!(p.kind, vh::DelayKind::BeforeJoin)) {
             std::thread::sleep(Duration::from_micros(300 + x % 700));
@@ -462,6 +483,22 @@ fn stress_case(seed: u64, idx: u64) -> CaseOut {
                         w.clone(),
                         replay.clone(),
                     );
+                    return co;
+                }
+                if let Some(class) = obs.recursive_read {
+                    // std: "read() might panic [or deadlock] when the lock is already held by the current thread";
+                    // directed re-runs (a pause before every read request lets a writer queue up) try to show it
+                    let mut confirmed = None;
+                    for k in 0..40u64 {
+                        if let RunEnd::Deadlock(d) = run_scenario(&sc, splitmix(seed ^ idx ^ (k + 500)), true) {
+                            confirmed = Some(d);
+                            break;
+                        }
+                    }
+                    co.verdict = match confirmed {
+                        Some(d) => viol("deadlock", vec!["recursive-read-lock-confirmed".into()], format!("a thread takes a second read lock on {class} while holding one; directed run: {d}"), w.clone(), replay.clone()),
+                        None => viol("recursive-read-lock", vec![class.clone()], format!("a thread requested a read lock on the {class} RwLock while already holding one: with a writer queued in between (any concurrent println/add/remove/draw) both block for ever"), w.clone(), replay.clone()),
+                    };
                     return co;
                 }
                 if let Some(c) = obs.potential_cycle {
